@@ -13,7 +13,7 @@ for d in seeded/C*-m*; do
   if ! git -C $REPO apply /verif/$d/$patch 2>/dev/null; then
     echo "| $(basename $d) | $prop | PATCH-DOES-NOT-APPLY | | |" >> $out; echo "$(basename $d) PATCH-DOES-NOT-APPLY"; continue
   fi
-  res=$(${LINT:-/verif/bin/conduitlint} -repo $REPO -verif /verif -prop ALL 2>&1)
+  res=$(${LINT:-/verif/bin/conduitlint} -repo $REPO -verif ${VERIFDIR:-/verif} -prop ALL 2>&1)
   git -C $REPO checkout -q -- . ; git -C $REPO clean -fdq
   all=$(echo "$res" | grep -oE "^\s+(VIOLATION|UNDECIDED|UNRESOLVED) C[0-9]+\.R[0-9]+" | awk '{print $2}' | sort -u)
   own=$(echo "$all" | grep "^$prop\." | tr '\n' ' ' | xargs)
